@@ -4,8 +4,8 @@ CONSTANTS
   Outputs <- MCOutputs
   Pendings <- MCPendings
   MaxRead = 3
-  InFilters = {"id", "dup"}
-  OutFilters = {"id", "dup"}
+  InFilters = {"id", "dup", "drop"}
+  OutFilters = {"id", "dup", "drop"}
   EscModes = {"esc", "none"}
   Devs = {}
 INVARIANT ChildGetsTypedUpToEscape
